@@ -143,7 +143,7 @@ def parse_table(src):
             cur = {"symbol": f["symbol"], "mai": int(f.get("most_abundant_isotope", "0")),
                    "mam": micro(f.get("most_abundant_mass", "0")), "number": int(f.get("element_number", "0")),
                    "min0": int(f.get("min_neutron_shift", "0")), "max0": int(f.get("max_neutron_shift", "0")),
-                   "isos": [], "indexed": False}
+                   "isos": [], "late": [], "indexed": False}
         elif p.peek() == "elt":
             if cur is None:
                 raise Refuse("statement on elt outside an element block")
@@ -157,9 +157,7 @@ def parse_table(src):
                 if p.peek() == ",":
                     p.eat(",")
                 p.eat(")", ";")
-                if cur["indexed"]:
-                    raise Refuse("isotope inserted after index_isotopes() in %r" % cur["symbol"])
-                cur["isos"].append({"key": key, "mass": micro(f.get("mass", "0")), "ab": micro(f.get("abundance", "0")),
+                (cur["late"] if cur["indexed"] else cur["isos"]).append({"key": key, "mass": micro(f.get("mass", "0")), "ab": micro(f.get("abundance", "0")),
                                     "neutrons": int(f.get("neutrons", "0")), "shift": int(f.get("neutron_shift", "0"))})
             elif what == "index_isotopes":
                 p.eat("(", ")", ";")
@@ -198,11 +196,11 @@ def emit_table(elements):
            "Definition table_src : list elem_src := ["]
     rows = []
     for e in elements:
-        isos = "; ".join("mkIso %d %s %s %d %s" % (i["key"], z(i["mass"]), z(i["ab"]), i["neutrons"], z(i["shift"]))
-                         for i in e["isos"])
-        rows.append("  mkElem %s %d %s %d %s %s %s [%s]" % (coq_string(e["symbol"]), e["mai"], z(e["mam"]), e["number"],
-                                                            z(e["min0"]), z(e["max0"]),
-                                                            "true" if e["indexed"] else "false", isos))
+        fmt = lambda l: "; ".join("mkIso %d %s %s %d %s" % (i["key"], z(i["mass"]), z(i["ab"]), i["neutrons"], z(i["shift"])) for i in l)
+        isos = fmt(e["isos"])
+        rows.append("  mkElem %s %d %s %d %s %s %s [%s] [%s]" % (coq_string(e["symbol"]), e["mai"], z(e["mam"]), e["number"],
+                                                                 z(e["min0"]), z(e["max0"]),
+                                                                 "true" if e["indexed"] else "false", isos, fmt(e["late"])))
     out.append(";\n".join(rows))
     out.append("].")
     return "\n".join(out) + "\n"
@@ -284,7 +282,7 @@ def main():
     c1 = write_if_changed(os.path.join(outdir, "Table.v"), t)
     c2 = write_if_changed(os.path.join(outdir, "Nist.v"), n)
     print("gen_table: %d elements, %d isotopes; Table.v %s, Nist.v %s" % (
-        len(elements), sum(len(e["isos"]) for e in elements),
+        len(elements), sum(len(e["isos"]) + len(e["late"]) for e in elements),
         "rewritten" if c1 else "unchanged", "rewritten" if c2 else "unchanged"))
 
 
